@@ -402,6 +402,9 @@ func checkC16(r *rt.Run) *rViolation {
 	if len(r.EndGoroutines) > len(r.StartGoroutines) {
 		return &rViolation{"goroutine-leak", fmt.Sprintf("library goroutines left after shutdown: %v", r.EndGoroutines)}
 	}
+	if r.TimerArmedAtEnd != "" {
+		return &rViolation{"election-timer-armed-after-shutdown", "after WaitUntilShutdown returned the election trigger is still registered for " + r.TimerArmedAtEnd}
+	}
 	for _, rec := range r.Records {
 		if rec.Op.K == "callcancelled" && !rec.Returned {
 			return &rViolation{"api-call-with-cancelled-ctx-blocks", "HandleConsensusMessage / UpdateState / ValidateBlockConsensus with a cancelled context did not return within 5s"}
